@@ -22,12 +22,15 @@ theorem WinFrom_drop (k : Nat) (l : List Entry) (j : Nat) (h : WinFrom k l) : Wi
 
 /-- below the window nothing matches -/
 theorem scan_lt (next op : Nat) (l : List Entry) (k m p : Nat) (h : WinFrom k l) (hm : m < k) :
-    hasPartScan next op l m p = decide (m = next ∧ p < op) := by
+    hasPartScan next op k l m p = decide (m = next ∧ p < op) := by
   induction l generalizing k with
   | nil => rfl
   | cons e r ih =>
     cases e with
-    | gap d => exact ih (k + 1) h.2 (by omega)
+    | gap d =>
+      have hne : m ≠ k := by omega
+      simp only [hasPartScan, hne, if_false]
+      exact ih (k + 1) h.2 (by omega)
     | seg g =>
       have hne : m ≠ g.id := by rw [h.1]; omega
       simp only [hasPartScan, hne, if_false]
@@ -35,7 +38,44 @@ theorem scan_lt (next op : Nat) (l : List Entry) (k m p : Nat) (h : WinFrom k l)
 
 /-- entries before position `j` are skipped when the request names the entry at position `j` -/
 theorem scan_skip (next op : Nat) (l : List Entry) (k j m p : Nat) (h : WinFrom k l) (hm : m = k + j) :
-    hasPartScan next op l m p = hasPartScan next op (l.drop j) m p := by
+    hasPartScan next op k l m p = hasPartScan next op (k + j) (l.drop j) m p := by
+  induction j generalizing k l with
+  | zero => simp
+  | succ j ih =>
+    cases l with
+    | nil => simp [hasPartScan]
+    | cons e r =>
+      simp only [List.drop_succ_cons]
+      rw [show k + (j + 1) = k + 1 + j by omega]
+      cases e with
+      | gap d =>
+        have hne : m ≠ k := by omega
+        simp only [hasPartScan, hne, if_false]
+        exact ih r (k + 1) h.2 (by omega)
+      | seg g =>
+        have hne : m ≠ g.id := by rw [h.1]; omega
+        simp only [hasPartScan, hne, if_false]
+        exact ih r (k + 1) h.2.2 (by omega)
+
+/-- the head index is irrelevant for an empty list -/
+theorem scan_nil (next op k m p : Nat) : hasPartScan next op k [] m p = decide (m = next ∧ p < op) := rfl
+
+/-! ### the scan before the F7 repair -/
+
+theorem scanL_lt (next op : Nat) (l : List Entry) (k m p : Nat) (h : WinFrom k l) (hm : m < k) :
+    hasPartScanLegacy next op l m p = decide (m = next ∧ p < op) := by
+  induction l generalizing k with
+  | nil => rfl
+  | cons e r ih =>
+    cases e with
+    | gap d => exact ih (k + 1) h.2 (by omega)
+    | seg g =>
+      have hne : m ≠ g.id := by rw [h.1]; omega
+      simp only [hasPartScanLegacy, hne, if_false]
+      exact ih (k + 1) h.2.2 (by omega)
+
+theorem scanL_skip (next op : Nat) (l : List Entry) (k j m p : Nat) (h : WinFrom k l) (hm : m = k + j) :
+    hasPartScanLegacy next op l m p = hasPartScanLegacy next op (l.drop j) m p := by
   induction j generalizing k l with
   | zero => simp
   | succ j ih =>
@@ -47,7 +87,7 @@ theorem scan_skip (next op : Nat) (l : List Entry) (k j m p : Nat) (h : WinFrom 
       | gap d => exact ih r (k + 1) h.2 (by omega)
       | seg g =>
         have hne : m ≠ g.id := by rw [h.1]; omega
-        simp only [hasPartScan, hne, if_false]
+        simp only [hasPartScanLegacy, hne, if_false]
         exact ih r (k + 1) h.2.2 (by omega)
 
 /-- real segments are followed by real segments only -/
@@ -78,17 +118,16 @@ theorem normFrom_ge (l : List Entry) (M P : Nat) : M ≤ (normFrom l M P).1 := b
 def pubL (del : Nat) (segs : List Entry) (next op : Nat) (M P : Nat) : Prop :=
   (M = next ∧ P < op) ∨ (∃ e, del ≤ M ∧ segs[M - del]? = some e ∧ P < e.partCount)
 
-/-- the scan from the entry at position `j` on, when no gap follows -/
+/-- the scan from the entry at position `j` on -/
 theorem scan_suffix (del : Nat) (segs : List Entry) (next op : Nat)
     (hw : WinFrom del segs) (hlen : del + segs.length = next) :
     ∀ (n j m p : Nat), n = segs.length - j → j ≤ segs.length → m = del + j →
-      (∀ e ∈ segs.drop j, ∃ g, e = Entry.seg g) →
-      (hasPartScan next op (segs.drop j) m p = true ↔
+      (hasPartScan next op m (segs.drop j) m p = true ↔
         pubL del segs next op (normFrom (segs.drop j) m p).1 (normFrom (segs.drop j) m p).2) := by
   intro n
   induction n with
   | zero =>
-    intro j m p hn hj hm _
+    intro j m p hn hj hm
     have hj' : j = segs.length := by omega
     have hd : segs.drop j = [] := by rw [hj']; exact List.drop_length
     rw [hd]
@@ -100,27 +139,31 @@ theorem scan_suffix (del : Nat) (segs : List Entry) (next op : Nat)
       · have : segs[m - del]? = none := List.getElem?_eq_none (by omega)
         rw [this] at he; cases he
   | succ n ih =>
-    intro j m p hn hj hm hng
+    intro j m p hn hj hm
     have hjlt : j < segs.length := by omega
     have hd : segs.drop j = segs[j] :: segs.drop (j + 1) := List.drop_eq_getElem_cons hjlt
-    obtain ⟨g, hg⟩ := hng segs[j] (by rw [hd]; exact List.mem_cons_self)
     have hwd := WinFrom_drop del segs j hw
-    rw [hd, hg] at hwd
-    have hgid : g.id = m := by rw [hm]; exact hwd.1
-    rw [hd, hg]
-    have hget : segs[m - del]? = some (Entry.seg g) := by
-      rw [show m - del = j by omega, List.getElem?_eq_getElem hjlt, hg]
-    unfold hasPartScan normFrom
-    simp only [hgid, if_true, Entry.partCount]
-    by_cases hp : p < g.parts.length
-    · have : ¬ p ≥ g.parts.length := by omega
-      simp only [this, if_false, hp, if_true]
-      simp only [true_iff]
-      exact .inr ⟨_, by omega, hget, hp⟩
-    · have : p ≥ g.parts.length := by omega
-      simp only [this, if_true, hp, if_false]
+    rw [hd]
+    cases hg : segs[j] with
+    | gap d0 =>
+      unfold hasPartScan normFrom
+      simp only [if_true, Entry.partCount, Nat.not_lt_zero, if_false]
       exact ih (j + 1) (m + 1) 0 (by omega) (by omega) (by omega)
-        (fun e he => hng e (by rw [hd]; exact List.mem_cons_of_mem _ he))
+    | seg g =>
+      rw [hd, hg] at hwd
+      have hgid : g.id = m := by rw [hm]; exact hwd.1
+      have hget : segs[m - del]? = some (Entry.seg g) := by
+        rw [show m - del = j by omega, List.getElem?_eq_getElem hjlt, hg]
+      unfold hasPartScan normFrom
+      simp only [hgid, if_true, Entry.partCount]
+      by_cases hp : p < g.parts.length
+      · have : ¬ p ≥ g.parts.length := by omega
+        simp only [this, if_false, hp, if_true]
+        simp only [true_iff]
+        exact .inr ⟨_, by omega, hget, hp⟩
+      · have : p ≥ g.parts.length := by omega
+        simp only [this, if_true, hp, if_false]
+        exact ih (j + 1) (m + 1) 0 (by omega) (by omega) (by omega)
 
 /-! ## stream level -/
 
@@ -148,9 +191,9 @@ theorem entryAt_next_none (s : StreamSt) (si : Nat) (ps : List (PathKey × Handl
   | none => rfl
   | some e => have := entryAt_lt_next s si ps hinv M e he; omega
 
-/-- F7: a request naming a listed gap entry WITH a part index matches nothing -/
-theorem hasPart_gap (s : StreamSt) (si : Nat) (ps : List (PathKey × Handler)) (hinv : VInv si ps s.view)
-    (m p : Nat) (d : Int) (h : s.entryAt m = some (.gap d)) : s.hasPart m p = false := by
+/-- F7 (before the repair): a request naming a listed gap entry WITH a part index matched nothing -/
+theorem hasPartLegacy_gap (s : StreamSt) (si : Nat) (ps : List (PathKey × Handler)) (hinv : VInv si ps s.view)
+    (m p : Nat) (d : Int) (h : s.entryAt m = some (.gap d)) : s.hasPartLegacy m p = false := by
   obtain ⟨hge, hlt, hne⟩ := entryAt_lt_next s si ps hinv m _ h
   have hw : WinFrom s.deleteCount s.segments := hinv.win
   unfold StreamSt.entryAt at h
@@ -165,11 +208,17 @@ theorem hasPart_gap (s : StreamSt) (si : Nat) (ps : List (PathKey × Handler)) (
   have hg : s.segments[m - s.deleteCount] = Entry.gap d := Option.some.inj h
   have hwd := WinFrom_drop _ _ (m - s.deleteCount) hw
   rw [hd, hg] at hwd
-  unfold StreamSt.hasPart
-  rw [if_neg (by omega), scan_skip _ _ _ s.deleteCount (m - s.deleteCount) m p hw (by omega), hd, hg]
-  unfold hasPartScan
-  rw [scan_lt _ _ _ (s.deleteCount + (m - s.deleteCount) + 1) m p hwd.2 (by omega)]
+  unfold StreamSt.hasPartLegacy
+  rw [if_neg (by omega), scanL_skip _ _ _ s.deleteCount (m - s.deleteCount) m p hw (by omega), hd, hg]
+  unfold hasPartScanLegacy
+  rw [scanL_lt _ _ _ (s.deleteCount + (m - s.deleteCount) + 1) m p hwd.2 (by omega)]
   simp; omega
+
+/-- the head of the list is listed under `deleteCount` -/
+theorem headIndex_eq (s : StreamSt) (si : Nat) (ps : List (PathKey × Handler)) (hinv : VInv si ps s.view)
+    (hne : s.segments ≠ []) : s.nextSegmentID - s.segments.length = s.deleteCount := by
+  have hlen : s.deleteCount + s.segments.length = s.nextSegmentID := hinv.len hne
+  omega
 
 theorem published_iff_pubL (s : StreamSt) (M P : Nat) :
     s.published M P ↔ pubL s.deleteCount s.segments s.nextSegmentID s.openPartCount M P := by
@@ -184,51 +233,31 @@ theorem published_iff_pubL (s : StreamSt) (M P : Nat) :
     · exact .inl h
     · exact .inr ⟨e, by rw [if_neg (by omega)]; exact he, hp⟩
 
-/-- the code's `hasPart` agrees with "the normalised part is published", provided the named entry is
-    not a gap -/
+/-- the code's `hasPart` agrees with "the normalised part is published" -/
 theorem hasPart_iff (s : StreamSt) (si : Nat) (ps : List (PathKey × Handler)) (hinv : VInv si ps s.view)
-    (hne : s.segments ≠ []) (m p : Nat) (hge : s.deleteCount ≤ m) (hng : ∀ d, s.entryAt m ≠ some (.gap d)) :
+    (hne : s.segments ≠ []) (m p : Nat) (hge : s.deleteCount ≤ m) :
     s.hasPart m p = true ↔ s.published (s.normalise m p).1 (s.normalise m p).2 := by
   have hw : WinFrom s.deleteCount s.segments := hinv.win
   have hlen : s.deleteCount + s.segments.length = s.nextSegmentID := hinv.len hne
+  have hk := headIndex_eq s si ps hinv hne
   rw [published_iff_pubL]
   unfold StreamSt.normalise
   rw [if_neg (by omega)]
   by_cases hle : m ≤ s.nextSegmentID
-  · -- the scan (or the direct test of the open segment) from position j = m - del
-    have hj : m - s.deleteCount ≤ s.segments.length := by omega
-    have hnog : ∀ e ∈ s.segments.drop (m - s.deleteCount), ∃ g, e = Entry.seg g := by
-      by_cases hjl : m - s.deleteCount < s.segments.length
-      · have hd := List.drop_eq_getElem_cons hjl
-        have hwd := WinFrom_drop _ _ (m - s.deleteCount) hw
-        cases hg : s.segments[m - s.deleteCount] with
-        | gap d =>
-          exfalso
-          apply hng d
-          unfold StreamSt.entryAt
-          rw [if_neg (by omega), List.getElem?_eq_getElem hjl, hg]
-        | seg g =>
-          rw [hd, hg] at hwd
-          rw [hd, hg]
-          intro e he
-          rcases List.mem_cons.mp he with rfl | hr
-          · exact ⟨g, rfl⟩
-          · exact WinFrom_nogap _ _ hwd.2.2 (by have := hwd.2.1; omega) e hr
-      · rw [List.drop_eq_nil_of_le (by omega)]
-        intro e he; cases he
+  · have hj : m - s.deleteCount ≤ s.segments.length := by omega
     have hsuf := scan_suffix s.deleteCount s.segments s.nextSegmentID s.openPartCount hw hlen
-      (s.segments.length - (m - s.deleteCount)) (m - s.deleteCount) m p rfl hj (by omega) hnog
+      (s.segments.length - (m - s.deleteCount)) (m - s.deleteCount) m p rfl hj (by omega)
     rw [← hsuf]
     unfold StreamSt.hasPart
     by_cases hm : m = s.nextSegmentID
     · rw [if_pos hm, List.drop_eq_nil_of_le (by omega)]
       simp [hasPartScan, hm]
-    · rw [if_neg hm, scan_skip _ _ _ s.deleteCount (m - s.deleteCount) m p hw (by omega)]
-  · -- beyond the open segment
-    have hdn : s.segments.drop (m - s.deleteCount) = [] := List.drop_eq_nil_of_le (by omega)
+    · rw [if_neg hm, hk, scan_skip _ _ _ s.deleteCount (m - s.deleteCount) m p hw (by omega)]
+      rw [show s.deleteCount + (m - s.deleteCount) = m by omega]
+  · have hdn : s.segments.drop (m - s.deleteCount) = [] := List.drop_eq_nil_of_le (by omega)
     rw [hdn]
     unfold StreamSt.hasPart
-    rw [if_neg (by omega), scan_skip _ _ _ s.deleteCount (m - s.deleteCount) m p hw (by omega), hdn]
+    rw [if_neg (by omega), hk, scan_skip _ _ _ s.deleteCount (m - s.deleteCount) m p hw (by omega), hdn]
     simp only [hasPartScan, normFrom, pubL, decide_eq_true_eq]
     constructor
     · intro h; omega
